@@ -6,6 +6,18 @@ from . import pysrc
 
 FETCH_T = "option Z -> option Z -> bool -> list ivl"
 
+# Gen/Source.v may mention the models' data types and library models (freq, zmem, sl_add, ...)
+HEADER = pysrc.HEADER.replace("From CG Require Import Model.Loop.",
+                              "From CG Require Import Model.Loop Model.Recur Model.Cache.")
+
+# self.freq is one of four strings: an enumeration (Model/Recur.v)
+FREQ = {"FREQ": ("freq_eqb", {"daily": "Daily", "weekly": "Weekly", "monthly": "Monthly", "yearly": "Yearly"})}
+
+SINK_EFFECTS = {"self._sink.add": dict(var="self_sink", args=["IVL"], update="(sl_add {0} {var})"),
+                "self._sink.remove": dict(var="self_sink", args=["IVL"], update="(sl_remove {0} {var})")}
+
+HENT0 = "(0, 0%N, mkCov 0 0 0)"          # default heap entry (only where Python would raise IndexError)
+
 SPECS = [
     dict(name="g_finite_start", file="calgebra/interval.py", cls="Interval", func="finite_start", kind="expr",
          params=[("self", "IVL")], ret="Z"),
@@ -39,12 +51,111 @@ SPECS = [
          params=[("source_fetch", FETCH_T), ("self_gap", "Z"), ("start", "OZ"), ("end", "OZ")],
          selfattrs={"gap": ("self_gap", "Z")},
          calls={"self.source.fetch": ("source_fetch", ["OZ", "OZ", "B"], "LIST")}),
+    # ---- recurrence.py.  datetime values are an abstract type DT; the library calls (fromtimestamp,
+    # rrule, ...) and the other methods are parameters of the generated definition.
+    dict(name="g_recur_fetch_forward", file="calgebra/recurrence.py", cls="RecurringPattern", func="_fetch_forward",
+         kind="gen", res=True, tyvars=["DT"], types={"DT": "DT", "FREQ": "freq"}, enums=FREQ,
+         params=[("self_freq", "FREQ"), ("self_interval", "Z"), ("self_duration_seconds", "Z"),
+                 ("self_exdates", "L:Z"),
+                 ("dt_fromtimestamp", "Z -> DT"), ("get_safe_anchor", "DT -> DT"), ("dt_midnight", "DT -> DT"),
+                 ("rrule_of", "DT -> list DT"), ("occurrence_to_interval", "DT -> ivl"),
+                 ("start", "OZ"), ("end", "OZ")],
+         selfattrs={"freq": ("self_freq", "FREQ"), "interval": ("self_interval", "Z"),
+                    "duration_seconds": ("self_duration_seconds", "Z"), "exdates": ("self_exdates", "L:Z")},
+         calls={"datetime.fromtimestamp": dict(coq="dt_fromtimestamp", args=["Z"], fixed={"tz": "self.zone"}, ret="DT"),
+                "self._get_safe_anchor": ("get_safe_anchor", ["DT"], "DT"),
+                "rrule": dict(coq="rrule_of", args=[], kw=[("dtstart", "DT")], fixed={"**": "self.rrule_kwargs"},
+                              ret="L:DT"),
+                "self._occurrence_to_interval": ("occurrence_to_interval", ["DT"], "IVL")},
+         methods={("DT", "replace"): dict(coq="dt_midnight", args=[],
+                                          fixed={"hour": "0", "minute": "0", "second": "0", "microsecond": "0"},
+                                          ret="DT")}),
+    # the forward fetch of a chunk is a parameter; its items have integer starts (assumption carried by
+    # the equivalence theorem: true of everything _occurrence_to_interval builds)
+    dict(name="g_recur_fetch_reverse", file="calgebra/recurrence.py", cls="RecurringPattern", func="_fetch_reverse",
+         kind="gen", res=True, types={"FREQ": "freq"}, enums=FREQ,
+         params=[("self_freq", "FREQ"), ("fetch_forward", "Z -> Z -> list ivl"), ("start", "OZ"), ("end", "OZ")],
+         selfattrs={"freq": ("self_freq", "FREQ")},
+         calls={"self._fetch_forward": ("fetch_forward", ["Z", "Z"], "LIST")},
+         assume_not_none=["ivl.start"]),
+    # datetime / date / timedelta are abstract types; the arithmetic between them is a parameter.
+    # base_anchor.replace(year=.., month=..) raises ValueError when the day does not exist in that month:
+    # its Coq form returns an option and is only accepted as `try: return ..replace(..) except ValueError:`.
+    dict(name="g_recur_safe_anchor", file="calgebra/recurrence.py", cls="RecurringPattern", func="_get_safe_anchor",
+         kind="expr", res=True, ret="DT", tyvars=["DT", "DATE", "TD"],
+         types={"DT": "DT", "DATE": "DATE", "TD": "TD", "FREQ": "freq"}, enums=FREQ,
+         params=[("self_freq", "FREQ"), ("self_interval", "Z"), ("self_anchor_timestamp", "OZ"), ("self_epoch", "DT"),
+                 ("dt_fromtimestamp", "Z -> DT"), ("dt_make", "Z -> Z -> Z -> DT"), ("dt_date", "DT -> DATE"),
+                 ("date_sub", "DATE -> DATE -> TD"), ("td_days", "TD -> Z"), ("td_of_days", "Z -> TD"),
+                 ("td_of_weeks", "Z -> TD"), ("dt_add", "DT -> TD -> DT"), ("dt_year", "DT -> Z"),
+                 ("dt_month", "DT -> Z"), ("dt_replace_ym", "DT -> Z -> Z -> option DT"),
+                 ("dt_replace_y", "DT -> Z -> option DT"), ("start_dt", "DT")],
+         selfattrs={"freq": ("self_freq", "FREQ"), "interval": ("self_interval", "Z"),
+                    "anchor_timestamp": ("self_anchor_timestamp", "OZ"), "_epoch": ("self_epoch", "DT")},
+         calls={"datetime.fromtimestamp": dict(coq="dt_fromtimestamp", args=["Z"], fixed={"tz": "self.zone"}, ret="DT"),
+                "datetime": dict(coq="dt_make", args=["Z", "Z", "Z"], fixed={"tzinfo": "self.zone"}, ret="DT"),
+                "timedelta": [dict(coq="td_of_days", args=[], kw=[("days", "Z")], ret="TD"),
+                              dict(coq="td_of_weeks", args=[], kw=[("weeks", "Z")], ret="TD")]},
+         methods={("DT", "date"): dict(coq="dt_date", args=[], ret="DATE"),
+                  ("DT", "replace"): [dict(coq="dt_replace_ym", args=[], kw=[("year", "Z"), ("month", "Z")],
+                                           ret="O:DT", raises="ValueError"),
+                                      dict(coq="dt_replace_y", args=[], kw=[("year", "Z")],
+                                           ret="O:DT", raises="ValueError")]},
+         attrs={("TD", "days"): ("td_days", "Z"), ("DT", "year"): ("dt_year", "Z"), ("DT", "month"): ("dt_month", "Z")},
+         binops={("DATE", "-", "DATE"): ("date_sub", "TD"), ("DT", "+", "TD"): ("dt_add", "DT")}),
+    # ---- cache.py.  self._sink (a MemoryTimeline holding only static intervals) is the state variable
+    # self_sink : its SortedList, with the library models sl_add / sl_remove / fetch_static of Model/.
+    dict(name="g_cache_purge_sink", file="calgebra/cache.py", cls="CachedTimeline", func="_purge_sink", kind="proc",
+         params=[("self_sink", "LIST"), ("start", "Z"), ("end", "Z")], state=["self_sink"],
+         calls={"self._sink.fetch": dict(coq="fetch_static", pre=["self_sink"], args=["OZ", "OZ", "B"], fetch=True,
+                                         ret="LIST")},
+         effects=SINK_EFFECTS),
+    # the clipping loop of _fill_gap (the statements up to and including the `for`); the lazy key
+    # validation (self._get_key may only raise) is a declared no-op on the modelled state
+    dict(name="g_cache_fill_gap_clip", file="calgebra/cache.py", cls="CachedTimeline", func="_fill_gap", kind="proc",
+         stop_after_loop=True, tyvars=["KEYS"], types={"KEYS": "KEYS"},
+         params=[("self_sink", "LIST"), ("self_key_validated", "B"), ("self_key_fields", "O:KEYS"),
+                 ("source_fetch", FETCH_T), ("gap_start", "Z"), ("gap_end", "Z")],
+         state=["self_sink", "self_key_validated"],
+         selfattrs={"_key_validated": ("self_key_validated", "B"), "_key_fields": ("self_key_fields", "O:KEYS")},
+         calls={"self.source.fetch": ("source_fetch", ["OZ", "OZ", "B"], "LIST")},
+         effects=dict(SINK_EFFECTS, **{"self._get_key": dict(var=None, args=["IVL"])})),
+    # _evict_expired: the expiry heap is the list of its entries in pop order (Model/Cache.v), so
+    # heap[0] = hd and heappop = hd / tl; self._cover.remove raises ValueError iff the cover is absent;
+    # time.monotonic() is the parameter clock_now
+    dict(name="g_cache_evict_expired", file="calgebra/cache.py", cls="CachedTimeline", func="_evict_expired",
+         kind="proc", res=True, types={"HENT": "hent", "COV": "cov", "N": "N"}, tuples={"HENT": ["Z", "N", "COV"]},
+         defaults={"HENT": HENT0},
+         params=[("clock_now", "Z"), ("self_expiry_heap", "L:HENT"), ("self_cover", "L:COV"), ("self_sink", "LIST")],
+         state=["self_expiry_heap", "self_cover", "self_sink"],
+         selfattrs={"_expiry_heap": ("self_expiry_heap", "L:HENT")},
+         calls={"monotonic": dict(coq="clock_now", args=[], ret="Z")},
+         pops={"heapq.heappop": dict(arg="self._expiry_heap", var="self_expiry_heap", result="(hd " + HENT0 + " {var})",
+                                     update="(tl {var})", ret="HENT")},
+         attrs={("COV", "start"): ("cv_s", "Z"), ("COV", "end"): ("cv_e", "Z")},
+         effects={"self._cover.remove": dict(var="self_cover", args=["COV"], update="(cov_remove {0} {var})",
+                                             raises=("ValueError", "(existsb (cov_eqb {0}) {var})"), must_try=True),
+                  "self._purge_sink": dict(var="self_sink", args=["Z", "Z"],
+                                           update="(g_cache_purge_sink {var} {0} {1})")}),
+    # ---- mutable/memory.py: the static part of MemoryTimeline.fetch
+    dict(name="g_mem_fetch_static", file="calgebra/mutable/memory.py", cls="MemoryTimeline", func="_fetch_static",
+         kind="gen",
+         params=[("self_static_intervals", "LIST"), ("start", "OZ"), ("end", "OZ"), ("reverse", "B")],
+         selfattrs={"_static_intervals": ("self_static_intervals", "LIST")}),
+    # ---- core.py: Difference._sweep.  heapq.merge over the subtractor streams is the library model
+    # merge_by lt_fwd (Model/Sweeps.v), accepted only with exactly this source text; the iterator is the
+    # list of the items not yet consumed; the closure advance_subtractor is inlined at its calls.
+    dict(name="g_diff_sweep", file="calgebra/core.py", cls="Difference", func="_sweep", kind="gen", res=True,
+         params=[("source_stream", "LIST"), ("sub_streams", "L:LIST")],
+         locals={"current_subtractor": "OIVL"}, inline=["advance_subtractor"],
+         text_exprs={"heapq.merge(*sub_streams, key=lambda event: (event.finite_start, event.finite_end))":
+                     ("(merge_by lt_fwd sub_streams)", "LIST")}),
 ]
 
 
 def regenerate(repo: Path, coq_dir: Path):
     """Rewrite Gen/Source.v if its content changed.  Returns ({name: error}, text)."""
-    text, errors = pysrc.translate_all(repo, SPECS)
+    text, errors = pysrc.translate_all(repo, SPECS, HEADER)
     out = coq_dir / "Gen" / "Source.v"
     if not out.exists() or out.read_text() != text:
         out.write_text(text)
